@@ -12,7 +12,7 @@
 (***************************************************************************)
 EXTENDS Integers, Sequences, FiniteSets, TLC
 Upto(n) == [i \in 1..n |-> i]
-CountBad(cs) == Cardinality({c \in 1..Len(cs) : cs[c].fault.kind \in {"bad", "badbody", "toodeep"}})
+CountBad(cs) == Cardinality({c \in 1..Len(cs) : cs[c].fault.kind \in {"bad", "badbody", "toodeep", "shortlen", "avplen4", "badw"}})
 Reasons(e) ==
   IF e.died THEN <<"process-died">> ELSE
      (IF e.accepted # Len(e.conns) THEN <<"connection-not-accepted">> ELSE <<>>)
